@@ -44,6 +44,11 @@ def corpus():
         {"op": "stop", "shard": 0}, {"op": "stop", "shard": 1}, {"op": "update", "u": B(b"a"), "i": B(b"gw2")},
         {"op": "acquire", "u": B(b"a"), "i": B(b"gw1")}, {"op": "check"}, {"op": "start", "shard": 1},
         {"op": "update", "u": B(b"a"), "i": B(b"gw2")}, {"op": "update", "u": B(b"b"), "i": B(b"gw2")}]})
+    # a lease loss racing with leaderCheck leaves a store nobody leads; the next leaderCheck must drop it
+    cs.append({"kind": "hist", "id": B(b"me"), "n": 2, "ops": base + [
+        {"op": "checkrace", "shard": 0}, {"op": "update", "u": B(b"a"), "i": B(b"gw2")}, {"op": "check"},
+        {"op": "checkrace", "shard": 1}, {"op": "check"}, {"op": "start", "shard": 0},
+        {"op": "update", "u": B(b"a"), "i": B(b"gw2")}]})
     return cs
 
 
@@ -68,8 +73,13 @@ def gen_hist(rng):
             ops.append({"op": "stop", "shard": rng.below(n)})
         elif k < 34:
             ops.append({"op": "newleader", "shard": rng.below(n), "id": B(rng.choice(IDS))})
-        elif k < 44:
+        elif k < 41:
             ops.append({"op": "check"})
+        elif k < 44:
+            # a lease loss racing with leaderCheck, usually followed (not always at once) by an ordinary one
+            ops.append({"op": "checkrace", "shard": rng.below(n)})
+            if rng.chance(2, 3):
+                ops.append({"op": "check"})
         elif k < 60:
             ops.append({"op": "set", "u": B(rng.choice(ups))})
         elif k < 66:
@@ -143,6 +153,8 @@ def coq_op(o):
         return "(OStopFlaky %s)" % cZ(o["shard"])
     if k == "check":
         return "OLeaderCheck"
+    if k == "checkrace":
+        return "(OLeaderCheckRace %s)" % cZ(o["shard"])
     if k == "set":
         return "(OClusterSet %s)" % cstr(o["u"])
     if k == "del":
